@@ -257,8 +257,14 @@ def run_sequence(sc):
                             fails.append(("unreadable-store-file-crashes:%s" % type(e).__name__, "store file %r: %r" % (op["text"][:40], e)))
                             c.s = None
                             break
-                        if len(c.s) != 0:
-                            fails.append(("unreadable-store-file-not-empty", repr(dict(c.s))[:200]))
+                        try:
+                            n_ = len(c.s)
+                        except Exception as e:
+                            fails.append(("unreadable-store-file-crashes:%s" % type(e).__name__, "store file %r: len() -> %r" % (op["text"][:40], e)))
+                            c.s = None
+                            break
+                        if n_ != 0:
+                            fails.append(("unreadable-store-file-not-empty", "store file %r: %d entries" % (op["text"][:40], n_)))
                         model.clear()
                         history.clear()
                         file_model = {}
@@ -357,7 +363,7 @@ def strategies():
             o += [st.fixed_dictionaries({"op": st.just("ttl"), "key": key, "seconds": st.sampled_from([5, 60, 86400]), "client": cl}),
                   st.fixed_dictionaries({"op": st.just("advance"), "seconds": st.sampled_from([1, 4, 6, 100])})]
         if kind == "json":
-            o += [st.fixed_dictionaries({"op": st.just("corrupt"), "text": st.sampled_from(["", "{bad", "[1, 2", "\x00\x01", "nul"])})]
+            o += [st.fixed_dictionaries({"op": st.just("corrupt"), "text": st.sampled_from(["", "{bad", "[1, 2", "\x00\x01", "nul", "null", "[1, 2]", "5", '"text"', "true"])})]
         return st.lists(st.one_of(*o), min_size=3, max_size=30)
 
     def scenario(kind, nclients, auto=False):
